@@ -74,6 +74,8 @@ func main() {
 		runRG(*out, *seed, *n)
 	case "tb":
 		runTB(*out, *seed, *n)
+	case "drv": // [hv-drv]
+		runDrv(*out, *seed, *n)
 	case "tbx":
 		runTBExhaustive(*out, *smMax, *smLen, *part, *parts, *smVariant)
 	default:
@@ -89,6 +91,8 @@ func replayAny(o *Out, lines []string) {
 	var rgLines []string
 	tbr := &tbRunner{o: o}
 	mtr := &mtRunner{o: o}
+	drvr := newDrvRunner(o) // [hv-drv]
+	defer drvr.finish()
 	e := &evRunner{o: o, prev: map[string]*evPrev{}, res: map[string][]*evPrev{}, rng: NewRng(1)}
 	for _, l := range lines {
 		f := strings.Fields(l)
@@ -136,6 +140,8 @@ func replayAny(o *Out, lines []string) {
 			tbr.replay([]string{l})
 		case "mt":
 			mtr.replay([]string{l})
+		case "drv": // [hv-drv]
+			drvr.replay([]string{l})
 		case "rg":
 			rgLines = append(rgLines, l)
 		case "ev":
